@@ -30,7 +30,8 @@ OBLIGATIONS = ["NiftyVerif.C22." + t for t in (
     "shareRange_monotone", "shareRange_covers", "shareRange_disjoint",
     "mirror_pair_same_seed", "odd_start_redraws_same_y", "localIndices_concat",
     "local_results_independent_of_partition", "samples_same_for_all_task_counts", "local_indices_eq_shareRange",
-    "distributed_average_eq_serial")]
+    "distributed_average_eq_serial", "iterate_keeps_sync", "sync_checks_never_fire", "root_keeps_object_breaks_sync",
+    "single_value_list")]
 RULE = ("(a) shareRange(n,p,r) enumerated for all n<=N, 1<=p<=P, r<p (plus p=0 error stream); "
         "(b) scenario specs (kl: n_samples 1..4 x mirrored x constants/point estimates x linear/geometric sampling; "
         "sl: explicit partitions incl. empty ranks; okl: MAP + sampled iterations) each run serially and with p ranks, "
@@ -234,7 +235,34 @@ def _scen_okl(comm, spec, root=None):
     return out
 
 
-SCEN = {"kl": _scen_kl, "sl": _scen_sl, "okl": _scen_okl}
+def _scen_sync(comm, spec, root=None):
+    """do optimize_kl's own sync checks fire?  `rootkeeps`: a communicator whose bcast leaves the root's object in place
+    (NOT mpi4py's semantics) — the model predicts that the MAP branch then fails its check for >= 2 tasks"""
+    import copy
+    import nifty.cl as ift
+    if comm is not None and spec.get("rootkeeps"):
+        base_bcast = type(comm).bcast
+
+        def bcast(self, obj=None, root=0):
+            r = base_bcast(self, obj, root)
+            return obj if self.Get_rank() == root else r
+        comm = copy.copy(comm)
+        comm.__class__ = type("RootKeepsComm", (type(comm),), {"bcast": bcast})
+    dom, op, lh = _build(spec)
+    ns = spec["ns"]
+    ic = ift.GradientNormController(iteration_limit=2)
+    mini = ift.NewtonCG(ift.GradientNormController(iteration_limit=1))
+    try:
+        ift.optimize_kl(lh, len(ns), lambda i: ns[i], mini, ic, nonlinear_sampling_minimizer=None, output_directory=None,
+                        comm=comm, plot_energy_history=False, plot_minisanity_history=False)
+        return {"pass": True}
+    except RuntimeError as e:
+        if "not in sync" in str(e):
+            return {"pass": False}
+        raise
+
+
+SCEN = {"kl": _scen_kl, "sl": _scen_sl, "okl": _scen_okl, "sync": _scen_sync}
 
 
 def _job(comm, specs, serial, root):
@@ -256,8 +284,9 @@ def _job(comm, specs, serial, root):
     return out
 
 
-def _run(specs, p, serial=False, timeout=900.0, mode="coop"):
+def _run(specs, p, serial=False, timeout=None, mode="coop"):
     """-> (list per spec of list per rank of outputs, failure info or None)"""
+    timeout = timeout or 150.0 * fm.load_factor()
     root = tempfile.mkdtemp(prefix="c22_")
     try:
         res = fm.run(1 if serial else p, _job, specs, serial, root, seed=None, timeout=timeout, mode=mode)
@@ -421,7 +450,19 @@ def run(ctx):
             for p in ps:
                 lines.append(dict(op="localSamples", n=s["n"], mirror=s["mirror"], p=p))
                 kl_keys.append((si, p))
-    outs = ctx.model(DRIVER, lines)
+    sync_specs = []
+    for ns in ([0], [0, 1], [1, 0], [0, 0, 2], [2, 1]):
+        for rk in (False, True):
+            sync_specs.append(dict(scen="sync", seed=ctx.rng.randrange(1 << 30), ns=ns, rootkeeps=rk, model=0))
+    if ctx.quick:
+        sync_specs = sync_specs[:6]
+    sync_ps = [1, 2, 3] if not ctx.quick else [2]
+    n_before_sync = len(lines)
+    lines += [dict(op="sync", modes=[0 if n == 0 else 1 for n in s["ns"]], p=p, rootkeeps=s["rootkeeps"])
+              for p in sync_ps for s in sync_specs]
+    outs = ctx.model(DRIVER, lines)      # ONE model call for everything
+    mres = outs[n_before_sync:]
+    outs = outs[:n_before_sync]
     for c, m in zip(cases, outs):
         ctx.stat("shareRange:" + ("p=0" if c["p"] == 0 else ("p>n" if c["p"] > c["n"] else "p<=n")))
         ctx.compare(c, _impl_share(c), m, note="T3 shareRange: generated Lean definition vs Python original",
@@ -452,6 +493,7 @@ def run(ctx):
             ctx.case(case, nontrivial=p > 1 and nsamp >= 1)
             if p > nsamp:
                 ctx.stat("more-ranks-than-samples")
+                ctx.stat("more-ranks-than-samples:" + s["scen"])
             if j is not None:
                 ctx.counterexample(case, *j)
                 continue
@@ -482,6 +524,38 @@ def run(ctx):
             ctx.stat("procs-mode-crosscheck")
             if j is not None:
                 ctx.counterexample(dict(spec=s, p=3, mode="procs"), *j)
+    # ---- the sync checks of optimize_kl vs Model/Distributed.checksPass (incl. the non-mpi4py broadcast semantics) -------
+    k = 0
+    for p in sync_ps:
+        so, sf = _run(sync_specs, p)
+        for si, s in enumerate(sync_specs):
+            m = mres[k]
+            k += 1
+            case = dict(spec=s, p=p, part="sync")
+            ctx.stat("sync:" + ("rootkeeps" if s["rootkeeps"] else "mpi4py-bcast"))
+            if sf is not None:
+                ctx.counterexample(case, f"optimize_kl sync scenario with {p} ranks does not complete: {sf}",
+                                   {"site": "sync", "what": sf["kind"]})
+                break
+            outs_s = so[si]
+            impl = {"pass": all(isinstance(o, dict) and o.get("pass") is True for o in outs_s)} \
+                if all(isinstance(o, dict) and "pass" in o for o in outs_s) else {"ranks": outs_s}
+            ctx.compare(case, impl, m, note="optimize_kl's own sync checks vs Model/Distributed.checksPass", nontrivial=p > 1)
+            if not s["rootkeeps"] and impl != {"pass": True}:
+                ctx.counterexample(case, f"optimize_kl with {p} tasks and n_samples schedule {s['ns']} fails its own "
+                                         f"'MPI tasks are not in sync' check on a correct run: {outs_s}",
+                                   {"site": "sync", "what": "sync-check-fires"})
+    if not ctx.quick:
+        # MAP / sampled optimize_kl runs under true process isolation (no state shared between ranks at all)
+        sub2 = [s for s in specs if s["scen"] == "okl"][:4]
+        if sub2:
+            b2 = [base[specs.index(s)][0] for s in sub2]
+            o4, f4 = _run(sub2, 2, mode="procs")
+            for s, b, o in zip(sub2, b2, o4):
+                j = _judge(s, 2, b, o, f4)
+                ctx.stat("procs-mode-crosscheck-okl")
+                if j is not None:
+                    ctx.counterexample(dict(spec=s, p=2, mode="procs"), *j)
     ctx.extra["exhaustive"] = False
     ctx.extra["shareRange_exhaustive"] = dict(n=N, p=P)
     ctx.extra["rank_counts"] = ps
